@@ -705,6 +705,87 @@ func (P *Program) registerStd() {
 		var cell value = bigVal{t}
 		return tuple{&cell, iface{}}
 	})
+	// ---- math/rand: a generator made with rand.New(rand.NewSource(seed)) is a deterministic function
+	// of its seed and of the number of values drawn so far (uninterpreted function mathrand); the
+	// package-level functions (seeded by the runtime) return arbitrary values.
+	type randState struct {
+		seed *smt.Term
+		ctr  int
+	}
+	P.reg("math/rand.NewSource", func(fr *frame, args []value) value {
+		var cell value = &opaque{kind: "rand.Source", data: args[0].(*smt.Term)}
+		return iface{t: types.NewPointer(fr.in.P.namedType("math/rand.rngSource")), v: &cell}
+	})
+	P.reg("math/rand.New", func(fr *frame, args []value) value {
+		src, _ := args[0].(iface)
+		p, ok := src.v.(*value)
+		if !ok || p == nil {
+			panic(unsupported{"math/rand.New over a source that is not rand.NewSource(seed)"})
+		}
+		o, ok := (*p).(*opaque)
+		if !ok || o.kind != "rand.Source" {
+			panic(unsupported{"math/rand.New over a source that is not rand.NewSource(seed)"})
+		}
+		fr.in.path.noteAssumption("math/rand: a seeded generator is a deterministic function of (seed, draw number)")
+		var cell value = &opaque{kind: "rand.Rand", data: &randState{seed: o.data.(*smt.Term)}}
+		return &cell
+	})
+	randNext := func(fr *frame, recv value) *smt.Term {
+		in := fr.in
+		if recv == nil { // package-level function
+			in.path.noteAssumption("package-level math/rand functions return arbitrary values")
+			return in.C.Fresh("mathrand", smt.BV(64))
+		}
+		st := (*recv.(*value)).(*opaque).data.(*randState)
+		in.C.DeclareFun("mathrand", []smt.Sort{smt.BV(64), smt.Int}, smt.BV(64))
+		t := in.C.App("mathrand", st.seed, in.C.IntConstI(int64(st.ctr)))
+		st.ctr++
+		return t
+	}
+	for _, m := range []struct {
+		name  string
+		width int  // result width
+		bound bool // takes n
+		bits  int  // non-negative result bits when unbounded
+	}{{"Intn", 64, true, 0}, {"Int63n", 64, true, 0}, {"Int31n", 32, true, 0}, {"Int63", 64, false, 63}, {"Int", 64, false, 63}, {"Int31", 32, false, 31}, {"Uint32", 32, false, 32}, {"Uint64", 64, false, 64}} {
+		m := m
+		gen := func(method bool) func(fr *frame, args []value) value {
+			return func(fr *frame, args []value) value {
+				in := fr.in
+				var recv value
+				if method {
+					recv, args = args[0], args[1:]
+				}
+				r := randNext(fr, recv)
+				if m.bound {
+					n := args[0].(*smt.Term)
+					if !in.branch(in.C.BVSLt(in.C.BVConstU(0, n.Sort.W), n)) {
+						panic(targetPanic{msg: "invalid argument to " + m.name})
+					}
+					// the draw reduced into [0, n): a function of the draw and n (no remainder arithmetic)
+					if n.Sort.W < 64 {
+						n = in.C.ZExt(n, 64)
+					}
+					in.C.DeclareFun("mathrand_below", []smt.Sort{smt.BV(64), smt.BV(64)}, smt.BV(64))
+					b := in.C.App("mathrand_below", r, n)
+					in.assumeSilently(in.C.BVULt(b, n))
+					if m.width < 64 {
+						b = in.C.Extract(b, m.width-1, 0)
+					}
+					return b
+				}
+				if m.bits < 64 {
+					r = in.C.BVLShr(r, in.C.BVConstU(uint64(64-m.bits), 64))
+				}
+				if m.width < 64 {
+					r = in.C.Extract(r, m.width-1, 0)
+				}
+				return r
+			}
+		}
+		P.reg("(*math/rand.Rand)."+m.name, gen(true))
+		P.reg("math/rand."+m.name, gen(false))
+	}
 	// ---- sort.Slice / SliceStable: a stable insertion sort driven by the program's own less
 	// function (each comparison of symbolic keys is a branch)
 	sortSlice := func(fr *frame, args []value) value {
